@@ -1139,6 +1139,10 @@ impl<'input> Stream<'input> {
     pub fn gen_text_pos_from(&self, pos: usize) -> TextPos {
         let mut s = self.clone();
         s.pos = core::cmp::min(pos, s.span.as_str().len());
+        // `pos` can point inside a multi-byte character.
+        while !s.span.as_str().is_char_boundary(s.pos) {
+            s.pos -= 1;
+        }
         s.gen_text_pos()
     }
 
